@@ -36,7 +36,7 @@ def main(tier, only):
         for k in range(N_SMALL, N_SMALL + N_LARGE):
             for i in range(parts):
                 cfgs.append(dict(tag="tree%d.part%d" % (k, i), env={"VERIF_K": str(k), "VERIF_PART": "%d/%d" % (i, parts)},
-                                 only=fns[k], timeout=to))
+                                 only=fns[k], timeout=to, allow_vacuous=True))
     run.bounds = dict(path_length_max=N, child_indices="unbounded non-negative ints",
                       tree_portfolio="7 hand-built trees (<= 11 nodes)" + (" + 4 parsed trees (20-45 nodes)" if tier == "thorough" else ""),
                       nth_n="any int; numeral strings 0..12", level_ops="EQ GE LE GT LT",
